@@ -61,7 +61,7 @@ CFG = {
                   "Parameter pools driven by the automaton (Props/C08DriveParams): for any table, runes, Get answers (stale lengths), growth and Finish-Puts interleaved anywhere (also inside a dispatch) the composite is a run of the pool model, "
                   "every delivered unfinished CSI reads its parameters as delivered at every point, each hand-over reads decodeParams of the collected bytes, and the expansion equals a walk of the regenerated csiDispatch body. "
                   "Real time is abstracted to the order of timer and read events.",
-    "level_note": "LTS tied to the code by the regenerated table/timer shape, the regenerated run/callback skeletons (Props/C08Order) and by scripted-reader correspondence (incl. hook-forced callback delays in a child process); "
+    "level_note": "Harness (round 4): a panic of the parser goroutine (run or the timer callback) is handed to the harness by the deferred yield points of the verification build and ends the case with the item ! (FAIL panic with the input named) instead of taking the harness down. LTS tied to the code by the regenerated table/timer shape, the regenerated run/callback skeletons (Props/C08Order) and by scripted-reader correspondence (incl. hook-forced callback delays in a child process); "
                   "since round 4 also by the forced-schedule replay: the model's statement-grained state is compared with the real parser after every statement of every enumerated interleaving, and the oracle there is evaluated on the "
                   "implementation's observations alone (no panic, EOF once and last, guarded fields written only under the mutex, Escape report only while the ESC is the last byte parsed, lone ESC reported, Close stops the loop, items = Spec). "
                   "Validated by correspondence only: what each statement of run/the callback does (by reading + replay); the two enumeration reductions; collect/clear/Finish on slices. Modelled, not verified: real time (the 10 ms are the order of events). "
